@@ -55,11 +55,19 @@ Proof.
 Qed.
 Print Assumptions C15_cache_hit_equals_miss.
 
-(* the instance given by the regenerated table meets the premise: no cell written by the
-   package is classified Leak (bound: the n_writes writes of the table) *)
-Theorem C15_table_has_no_leak : forall c, In c ws_table -> kl_table c <> Leak.
+(* the instance given by the regenerated table meets the premise except for the cells listed as open leaks
+   (bound: the n_writes writes of the table): no other cell written by the package is classified Leak *)
+Theorem C15_table_has_no_leak_partial : forall c, In c ws_table -> mem_s c open_leaks = false -> kl_table c <> Leak.
 Proof. exact table_no_leak. Qed.
-Print Assumptions C15_table_has_no_leak.
+Print Assumptions C15_table_has_no_leak_partial.
+
+(* the full statement "no written cell is a Leak" is refuted today: the renderer copies the per-document
+   footnote_sort / footnote_transition onto document.settings under the names of the global options; when one
+   settings object is shared by several publish calls the next document's create_myst_config reads them back *)
+Theorem C15_table_has_no_leak_refuted :
+  open_leaks <> [] /\ forallb (fun c => mem_s c ws_table && klass_eqb (kl_table c) Leak) open_leaks = true.
+Proof. exact open_leaks_are_leaks. Qed.
+Print Assumptions C15_table_has_no_leak_refuted.
 
 (* the premise is needed: with one Leak cell (the content written depends on the old content,
    as Include.option_spec did before the repair) there are a history and an input whose output
@@ -86,12 +94,16 @@ Print Assumptions C15_render_state_reset.
 (* Source-translation tie (round 3).  Gen/GlobalWrites.v carries, regenerated from the source on every run:
    reads_before_write = every (method, attribute) of DocutilsRenderer / SphinxRenderer where self.<attribute> is read
    before any assignment to it in the same method; init_src / setup_render_src = the attribute assignments of
-   __init__ and of setup_render (base class, then the Sphinx override) as code.  For EVERY state st that earlier
-   renders may have left in the instance, each such attribute is Fresh after init_src and setup_render_src:
-   no renderer method can observe a value of an earlier render.  (A new per-render attribute that setup_render
+   __init__ and of setup_render (base class, then the Sphinx override) as code.  A parser object made by
+   create_md_parser may render several documents, so setup_render ALONE must do the reset: for EVERY state st that
+   earlier renders (and __init__) may have left in the instance, each such attribute is Fresh after setup_render_src st,
+   unless it is one of the three constructor-scoped attributes (ctor_scoped, each with its justification), which
+   __init__ assigns.  (A new per-render attribute that setup_render
    forgets, or one moved to a class attribute, makes the computation get stuck on [st "attr"].) *)
 Theorem C15_render_state_reset_src :
-  forall st : rstate, forallb (fun a => is_fresh (setup_render_src (init_src st) a)) (map snd reads_before_write) = true.
+  forall st : rstate,
+    forallb (fun a => is_ctor_scoped a || is_fresh (setup_render_src st a)) (map snd reads_before_write) = true /\
+    forallb (fun e => is_fresh (init_src st (fst e))) ctor_scoped = true.
 Proof. exact reset_ok_all. Qed.
 Print Assumptions C15_render_state_reset_src.
 
